@@ -495,7 +495,18 @@ def handleDescriptives (op : String) (inp : Json) (impl : Option Json) : R (Opti
           (if (name == "rolling_median" || name == "kaiser") && n ≥ 1 &&
               !(fin.all (fun v => decide (lo - tolQ * mag ≤ v) && decide (v ≤ hi + tolQ * mag))) then ["smooth_in_range"] else [])
         pure (clausesJ (clauses ++ windowOk)))
-    pure (some (obj [("out", outJ), ("geom", geom), ("slack", ratJ widthSlack), ("spec", spec)]))
+    -- weighted smoothing: the smallest window weight sum |N_i| (first pass) relative to the largest weight
+    let denomSlack : Rat :=
+      if name == "savgol_w" && n ≥ 2 && w.length == n then
+        match savgolGeometry n width ww order nIter with
+        | .ok (wing, _, _, _) =>
+          let wts := rollOff (padArray w wing) wing
+          let ns := unpad (convSame (normalise window) wts) wing
+          let scale := max (magnitude wts) (1 / 1000000000000)
+          (ns.map (fun v => absQ v / scale)).foldl min 1
+        | .error _ => 1
+      else 1
+    pure (some (obj [("out", outJ), ("geom", geom), ("slack", ratT (min widthSlack denomSlack)), ("spec", spec)]))
   | _ => pure none
 
 end CnvVerif.Drv
